@@ -718,7 +718,7 @@ def _oracle(ctx):
                     consume_sync(handler.deserialize(stream, cth, cl), script, out)
                 else:
                     env = ft.create_environ(method='POST', path='/', headers={'Content-Type': cth, 'Content-Length': str(cl)})
-                    env['wsgi.input'] = raw
+                    env['wsgi.input'] = raw; env['wsgi.errors'] = io.StringIO()   # an unexpected exception is judged from the 500, not printed
                     if path == 'request':
                         consume_sync(falcon.Request(env, options=wapp.req_options).get_media(), script, out)
                     else:
